@@ -3,7 +3,7 @@ from ..io_util import BudgetReader
 
 from hypothesis import strategies as st
 
-from .. import files, kmodel
+from .. import cli as CLI, files, kmodel
 from ..core import Violation, guard
 from .c01 import check_event
 
@@ -13,7 +13,8 @@ RULE = ('cases: histories of 1..4 version-2 dumps parsed in sequence through the
         'in its unused fields) + thread map of 0..40 entries (full-range tids/pids, pooled duplicates, utf-8 names '
         '<= 19 bytes, optional garbage after the NUL) + zero padding {0,1..7,8..4096} + 0..60 records '
         '(random/structured bytes; records beginning with 1..63 zero bytes and all-zero records forced in); sub-check big: dumps of '
-        '255..4097 records (around the block sizes of a buffered reader: 256, 512, 1024, 2048, 4096). '
+        '255..4097 records (around the block sizes of a buffered reader: 256, 512, 1024, 2048, 4096); sub-check cli_file: a dump of 20000+ records '
+        '(more than 1 MiB) read from a real file by the `kevents` command. '
         'Oracle: events == independent decoding of each record in order, nothing else; tables == plain-loop '
         'model of this file\'s map only. Non-trivial: n>=1 and m>=2; distinct by digest of the history.')
 ASSUMPTIONS = ['thread names are NUL-terminated inside the 20-byte field (xnu strlcpy) and valid utf-8',
@@ -107,7 +108,24 @@ def prop_big(ctx, case):
     ctx.note(['big', case['count'], case['seed']], nontrivial=True, classes=[f'records:{case["count"]}'])
 
 
-PROPS = {'history': prop_history, 'big': prop_big}
+def prop_cli_file(ctx, case):
+    """a dump of more than a megabyte read from a real (buffered) file, as the command line does: one line per record,
+    each showing its record's timestamp and argument bytes"""
+    recs = files.many_records(case['count'], case['seed'])
+    spec = dict(case['spec'], recs=recs)
+    blob = files.build_v2(spec)
+    out, exc = guard(CLI.invoke, 'kevents', {}, blob)
+    lines = out.split('\n')[:-1] if out else []
+    if exc is not None or len(lines) != len(recs):
+        raise Violation('cli-file:event-count', f'`kevents` on a file of {len(recs)} records ({len(blob)} bytes) prints {len(lines)} lines ({exc})')
+    for k, (line, rec) in enumerate(zip(lines, recs)):
+        ts = int.from_bytes(rec[:8], 'little')
+        if not line.startswith(str(ts) + ' ') or str(bytes(rec[8:40])) not in line:
+            raise Violation('cli-file:record', f'line {k} of {len(recs)} is {line[:160]!r}; record {k} has timestamp {ts} and arguments {bytes(rec[8:40])!r}')
+    ctx.note(['cli-file', case['count'], case['seed']], nontrivial=True, classes=[f'file-bytes:{len(blob) >> 20}MiB+'])
+
+
+PROPS = {'history': prop_history, 'big': prop_big, 'cli_file': prop_cli_file}
 
 
 def strategy():
@@ -124,4 +142,8 @@ def run(ctx):
     base = ctx.seed * 104723
     big = [{'spec': {'tm': [[0x10 + j, 100 + j, b'p%d' % j, b''] for j in range(i % 3)], 'pad': [0, 8, 3, 4096][i % 4], 'is64': 1, 'tick': 0, 'fill': 0},
             'count': c, 'seed': base + i, 'api': ['kdbuf', 'pykdebug'][(i + ctx.seed) % 2]} for i, c in enumerate(files.BIG_COUNTS)]
+    if ctx.shard == 0 and not ctx.failures:
+        cf = [{'spec': {'tm': [[0x10 + j, 100 + j, b'p%d' % j, b''] for j in range(1 + (ctx.seed + i) % 3)], 'pad': [24, 4, 0][i % 3], 'is64': 1, 'tick': 0, 'fill': 0},
+               'count': [20000, 33000, 70000][i % 3], 'seed': base + 50 + i} for i in range(ctx.n(1, 3))]
+        ctx.run_enum('cli_file', cf, prop_cli_file, exhaustive_label='dumps of 20000+ records (more than 1 MiB) read from a real file by `kevents`')
     ctx.run_enum('big', big, prop_big, exhaustive_label='dumps of 255..4097 records, every count of files.BIG_COUNTS')
